@@ -43,9 +43,36 @@ def prepare(ctx):
             ctx.go_build = 'ok'
         except Exception as e:
             ctx.go_build = str(e)
+        # translator: regenerate coq/gen/*.v from /repo's current sources (timestamps kept when unchanged)
+        ctx.gen_error = ''
+        try:
+            gen = os.path.join(BUILD, 'gen')
+            rc, out = sh(['go', 'build', '-o', gen, '.'], cwd=os.path.join(VERIF, 'tools', 'gen'), env=GOENV)
+            if rc != 0:
+                ctx.gen_error = 'translator does not build: ' + out[-300:]
+            else:
+                rc, out = sh([gen, REPO, os.path.join(COQ, 'gen')])
+                if rc != 0:
+                    ctx.gen_error = out.strip()[-400:]
+        except Exception as e:
+            ctx.gen_error = str(e)
+        if ctx.gen_error:
+            # a source the translator cannot read leaves no stale generated model behind: empty stubs keep the
+            # build going, every bridge obligation is reported as broken (compile_props)
+            hdr = 'From Coq Require Import String ZArith List.\nImport ListNotations.\nLocal Open Scope string_scope.\n'
+            stubs = {'StateMachine.v': hdr + 'Definition gen_valid_states : list string := [].\nDefinition gen_transitions : list (string * list string) := [].\n'
+                                             'Inductive claim_req := ClaimRequired | ClaimForbidden | ClaimAny.\nDefinition gen_claim_rule : list (list string * claim_req) := [].\n',
+                     'Consts.v': hdr + 'Definition gen_string_consts : list (string * string) := [].\nDefinition gen_int_consts : list (string * Z) := [].\n',
+                     'Skeleton.v': hdr + 'Inductive eff := ELoad (n : string) | EWrite (n : string) | ERaw (n : string) | ELoop (body : list (list eff)) | ELock (mode : string) (body : list (list eff)).\n'
+                                         'Definition gen_entries : list (string * list (list eff)) := [].\n'
+                                         'Inductive tok := TLoad | TWrite | TRaw (n : string) | TLockB (mode : string) | TLockE | TLoopB | TLoopE.\n'
+                                         'Definition gen_flat : list (string * list (list tok)) := [].\nDefinition gen_append_prim : list (list tok) := [[TRaw "translator failed"]].\n'}
+            for name, text in stubs.items():
+                with open(os.path.join(COQ, 'gen', name), 'w') as f:
+                    f.write('(* STUB: tools/gen failed: %s *)\n' % ctx.gen_error.replace('*)', '* )')[:200] + text)
         if not os.path.exists(os.path.join(COQ, 'Makefile')):
             sh(['coq_makefile', '-f', '_CoqProject', '-o', 'Makefile'], cwd=COQ)
-        rc, out = sh(['make', '-j16'], cwd=COQ, timeout=3000)
+        rc, out = sh(['make', '-k', '-j16'], cwd=COQ, timeout=3000)
         ctx.coq_build_rc = rc
         ctx.coq_build_err = '' if rc == 0 else out[-3000:]
 
@@ -88,6 +115,27 @@ def compile_props(ctx):
         ctx.obligations.append((n, True, ''))
     if axioms or closed != asked:
         ctx.obligations.append(('Print Assumptions', False, 'not closed: %s' % (axioms or 'count %d/%d' % (closed, asked))))
+    # bridge: obligations over the model GENERATED from the current sources by tools/gen
+    b = os.path.join(COQ, 'bridge', 'B_%s.v' % ctx.prop)
+    if os.path.exists(b):
+        bnames = re.findall(r'^Example\s+(\w+)', open(b).read(), re.M)
+        if ctx.gen_error:
+            for n in bnames:
+                ctx.obligations.append((n, False, 'translator: ' + ctx.gen_error))
+            return
+        rc, out = sh(['coqc', '-Q', 'theories', 'Ergo', '-Q', 'gen', 'ErgoGen', '-Q', 'bridge', 'ErgoBridge', '-w', '-all',
+                      os.path.join('bridge', 'B_%s.v' % ctx.prop)], cwd=COQ, timeout=900)
+        if rc != 0:
+            m = re.search(r'File "[^"]*", line (\d+).*?\nError:(.*)', out, re.S)
+            note = ('line %s: %s' % (m.group(1), ' '.join(m.group(2).split())[:300])) if m else out[-300:]
+            # say what the generated skeleton shows
+            rc2, out2 = sh(['coqtop', '-Q', 'theories', 'Ergo', '-Q', 'gen', 'ErgoGen', '-Q', 'bridge', 'ErgoBridge', '-batch'], cwd=COQ, timeout=60) if False else (0, '')
+            for n in bnames:
+                ctx.obligations.append((n, False, note))
+            ctx.cov['bridge_diagnosis'] = skeleton_diagnosis()
+        else:
+            for n in bnames:
+                ctx.obligations.append((n, True, ''))
 
 
 def run_coqchk(ctx):
@@ -106,6 +154,25 @@ def run_coqchk(ctx):
         ctx.obligations.append(('coqchk', False, out[-300:]))
     else:
         ctx.obligations.append(('coqchk', True, ''))
+
+
+def skeleton_diagnosis():
+    """What the lock-discipline scan says about the generated skeleton (for the replay file)."""
+    src = os.path.join(COQ, 'bridge', 'diag_tmp.v')
+    try:
+        with open(src, 'w') as f:
+            f.write('From Coq Require Import List String.\nFrom ErgoBridge Require Import SkelLib.\n'
+                    'Eval vm_compute in (concat (map mutating_ok mutating_entries), concat (map readonly_ok readonly_entries), init_ok, append_prim_ok).\n')
+        rc, out = sh(['coqc', '-Q', 'theories', 'Ergo', '-Q', 'gen', 'ErgoGen', '-Q', 'bridge', 'ErgoBridge', src], cwd=COQ, timeout=120)
+        return ' '.join(out.split())[:1500]
+    except Exception as e:
+        return str(e)
+    finally:
+        for ext in ('.v', '.vo', '.glob', '.vok', '.vos'):
+            try:
+                os.remove(src[:-2] + ext)
+            except OSError:
+                pass
 
 
 def load_known():
@@ -203,7 +270,7 @@ def finish(ctx):
     broken = [o for o in ctx.obligations if not o[1]]
     for (n, _, note) in broken:
         ctx.violations.append(('broken', 'proof obligation %s no longer checks: %s' % (n, note), {'theorem': n, 'note': note}))
-    if ctx.coq_build_rc != 0 and not broken:
+    if ctx.coq_build_rc != 0 and not broken and not os.path.exists(os.path.join(COQ, 'run', 'Check.vo')):
         ctx.violations.append(('broken', 'Coq development does not build', {'make_output': ctx.coq_build_err}))
     if ctx.gate:
         ctx.violations.append(('broken', 'forbidden construct in the development: %s' % ctx.gate[:3], {'gate': ctx.gate}))
